@@ -201,16 +201,15 @@ Example C16_nonvacuous :
   (let ob := run_root (mk_root MODE_FAIRMQ false E_CONFIGURE O2_CONFIGURED O2_STANDBY 1)
                       [Done; Done; Refused; Done; ErrState] in
    no_transport ob = true /\
-   exists pre st rb post',
-     o_log ob = pre ++ st :: rb :: post' /\ forallb (fun x => negb (in_place x)) pre = true /\
+   match o_log ob with
+   | a :: b :: st :: rb :: _ =>
+     in_place a = false /\ in_place b = false /\
      in_place st = true /\ s_after st = D_INITIALIZED /\
      has_edge fmq_graph D_INITIALIZED D_IDLE = true /\ reached rb D_IDLE = true /\
-     o_dev ob = D_IDLE /\ o_final ob = O2_STANDBY /\ o_err ob = true) /\
+     o_dev ob = D_IDLE /\ o_final ob = O2_STANDBY /\ o_err ob = true
+   | _ => False
+   end) /\
   (* a reply that is accepted *)
   do_transition (EI T_RUN D_READY D_RUNNING 0) (Reply trigger_EXECUTOR D_RUNNING T_RUN true)
     = (D_RUNNING, false).
-Proof.
-  split; [vm_compute; repeat split; reflexivity|]. split; [|reflexivity].
-  split; [reflexivity|].
-  eexists _, _, _, _. vm_compute. repeat split; reflexivity.
-Qed.
+Proof. vm_compute. repeat split; reflexivity. Qed.
